@@ -42,6 +42,7 @@ VARIABLES ends, pieces, handle, off, last, vprev, vlast, lastop, before
 
 vars == << ends, pieces, handle, off, last, vprev, vlast, lastop, before >>
 
+Fma(fa, fb, fc) == Add(Mul(fa, fb), fc)      \* exact arithmetic: fused = unfused
 A == INSTANCE PolyAlgebra
 LtN(a, b) == Leq(a, b) /\ a # b
 NoNaN(a) == FALSE
